@@ -249,6 +249,9 @@ var ledgerSpecs = []ledgerSpec{
 			// a node that joins by syncing from a (possibly truncated) peer: if it ends marked as loaded, the invariant holds on it too
 			{"joined-from-truncated-source", ledger.Cfg{Nodes: []string{"G"}, Spare: "N2", Sync: true, Supply: sp(10, 0), Menu: []ledger.TxSpec{t1, t3}, Truncate: true,
 				Prefix: []string{"P:0:p1", "P:0:p2", "P:0:p3", "P:0:p4"}, Props: only("C09")}, 3, 2, 4},
+			// ... where the oldest live vertex after the cut is issued by a wallet that issued nothing else that is still live
+			{"joined-from-truncated-source-other-issuer-at-the-cut", ledger.Cfg{Nodes: []string{"G"}, Spare: "N2", Sync: true, Supply: sp(10, 0), Menu: []ledger.TxSpec{t7}, Hidden: []ledger.TxSpec{t1, t3}, Truncate: true,
+				Prefix: []string{"P:0:t1", "P:0:p1", "P:0:t3", "P:0:p2", "P:0:p3"}, Props: only("C09")}, 3, 2, 4},
 			// data-only vertices and transfers mixed, truncated from a non-initial history
 			{"contracts+transfers+truncate", ledger.Cfg{Nodes: []string{"G"}, Supply: sp(10, 0), Menu: []ledger.TxSpec{t1, t3, {Label: "cx", From: "R", To: "B", Data: "d"}, {Label: "cy", From: "A", To: "B", Data: "d"}},
 				Truncate: true, Prefix: []string{"P:0:c1", "P:0:p1", "P:0:c2"}, Props: only("C09")}, d, 0, 0},
